@@ -952,6 +952,19 @@ fn main() {
         for i in &empties {
             run_case(&mut run, i, "empty-definition", mutant);
         }
+        // open finding defcircuit-multiline-string: a quoted string containing a newline inside a
+        // DEFCIRCUIT body (the same body in a DEFCAL round-trips and is a normal case)
+        let pragma = Instruction::Pragma(Pragma::new("note".into(), vec![], Some("two\nlines".into())));
+        let delay = Instruction::Delay(Delay::new(Expression::Number(Complex64::new(1.0, 0.0)), vec!["r\n_rx".into()], q0.clone()));
+        for body in [vec![pragma.clone()], vec![delay.clone(), Instruction::Nop()]] {
+            run_case(&mut run, &Instruction::CircuitDefinition(CircuitDefinition::new("C".into(), vec![], vec![], body.clone())), "defcircuit-multiline-string", mutant);
+            run_case(
+                &mut run,
+                &Instruction::CalibrationDefinition(CalibrationDefinition::new(CalibrationIdentifier::new("X".into(), vec![], vec![], q0.clone()).unwrap(), body)),
+                "defcal-multiline-string",
+                mutant,
+            );
+        }
     }
     run.finish(
         "Instruction trees built through the public constructors (Gate::new, Delay::new, Call::try_new, \
